@@ -76,22 +76,23 @@ theorem export_drops_losers_flat {g0 g : Graph} {win : String → Nat} (hwf : WF
   rwa [hro] at this
 
 /-- nothing dangles: every surviving node is a placeholder or (transitively) feeds the output —
-a node whose only consumers were erased does not survive. -/
+a node whose only consumers were erased does not survive.  Needs `PureLeaves`: no function that fx
+regards as impure in the graph (see `impure_op_keeps_discarded_branch` below). -/
 theorem export_survivors_feed_output {g0 g : Graph} {win : String → Nat} (hwf : WF g0) (hio : IOSane g0)
-    (he : exportGraph win g0 = some g) (i : Nat) (hl : (g.nd i).live = true) :
+    (hpure : PureLeaves g0) (he : exportGraph win g0 = some g) (i : Nat) (hl : (g.nd i).live = true) :
     (∃ k, (g.nd i).op = .input k) ∨ FeedsOutput g i :=
-  (exportGraph_spec hwf he).feeds hwf.1 hio i hl
+  (exportGraph_spec hwf he).feeds hwf.1 hio hpure i hl
 
 /-- **exactly** the arg-max branches: a node other than a placeholder survives iff it is kept by the
 rule "outputs are kept; the arguments of a kept node are kept, a combiner argument standing for
 its winner's output" (`Keeps`) — a rule read off the SuperNet and the winners alone. -/
 theorem export_keeps_exactly {g0 g : Graph} {win : String → Nat} (hwf : WF g0) (hio : IOSane g0)
-    (he : exportGraph win g0 = some g) (i : Nat) (hi : i < g0.length)
+    (hpure : PureLeaves g0) (he : exportGraph win g0 = some g) (i : Nat) (hi : i < g0.length)
     (hni : ∀ k, (g0.nd i).op ≠ .input k) : (g.nd i).live = true ↔ Keeps win g0 i := by
   have sp := exportGraph_spec hwf he
   constructor
   · intro hl
-    rcases sp.feeds hwf.1 hio i hl with ⟨k, hk⟩ | hf
+    rcases sp.feeds hwf.1 hio hpure i hl with ⟨k, hk⟩ | hf
     · rw [sp.node_eq i hl] at hk; exact absurd hk (hni k)
     · exact sp.feeds_keeps i hf
   · intro hk; exact sp.keeps_live hwf.1 hio i hk hi
@@ -145,10 +146,10 @@ def twice : Graph := [
   Node.leaf ⟨.module, "fc"⟩ [10],
   Node.output 11]
 
-example : WF twice ∧ IOSane twice ∧ Discipline (fun _ => 1) twice ∧
+example : WF twice ∧ IOSane twice ∧ Discipline (fun _ => 1) twice ∧ PureLeaves twice ∧
     (twice.nd (twice.length - 1)).op = .output :=
   ⟨wfB_sound (by decide +kernel), ioSaneB_sound (by decide +kernel),
-   disciplineB_sound (by decide +kernel), by decide +kernel⟩
+   disciplineB_sound (by decide +kernel), pureLeavesB_sound (by decide +kernel), by decide +kernel⟩
 
 /-- on it the (positional) export keeps the functional-tail branch at both call sites … -/
 example : exportGraph (fun _ => 1) twice = some [
@@ -178,6 +179,30 @@ exports branch 1. -/
 theorem pinned_rule_exports_wrong_branch :
     (exportGraphPinned (fun _ => 1) eleven).map moduleTargets = some ["b.sn_branches.10"] ∧
     (exportGraph (fun _ => 1) eleven).map moduleTargets = some ["b.sn_branches.1.conv"] := by
+  decide +kernel
+
+/-! ### impure ops: "all other branches are gone" needs `PureLeaves` -/
+
+/-- a block whose second branch is conv → random gate (`torch.bernoulli`, impure for fx) → conv -/
+def stochasticLoser : Graph := [
+  Node.input 0,
+  Node.leaf ⟨.module, "b.sn_branches.0"⟩ [0],
+  Node.leaf ⟨.module, "b.sn_branches.1.c1"⟩ [0],
+  Node.leaf ⟨.impureFunction, "torch.bernoulli"⟩ [2],
+  Node.leaf ⟨.function, "mul"⟩ [2, 3],
+  Node.leaf ⟨.module, "b.sn_branches.1.c2"⟩ [4],
+  Node.combine "b.sn_combiner" [1, 5],
+  Node.output 6]
+
+/-- with branch 0 winning, the discarded branch is NOT gone: its output node is erased
+(`export_drops_losers`), but dead-code elimination keeps the impure op and the layer feeding it —
+`b.sn_branches.1.c1` stays in the exported network although nothing it computes reaches the output.
+`export_survivors_feed_output` and `export_keeps_exactly` therefore carry `PureLeaves`; the output
+is still the hard evaluation (`export_eq_hardEval` needs no such hypothesis). -/
+theorem impure_op_keeps_discarded_branch :
+    (exportGraph (fun _ => 0) stochasticLoser).map moduleTargets =
+      some ["b.sn_branches.0", "b.sn_branches.1.c1"] ∧
+    pureLeavesB stochasticLoser = false := by
   decide +kernel
 
 /-! ### "for every value of the selection coefficients": export reads the current alpha -/
